@@ -29,27 +29,45 @@ def fuzzed(obl, quick=0, thorough=20000, modules=('exactpack',), max_shards=8, m
         corpus = os.path.join(scratch, 'corpus_%s' % tag)
         os.makedirs(corpus, exist_ok=True)
         env = dict(os.environ, PYTHONPATH=os.pathsep.join([REPO, VERIF, os.path.join(VERIF, '.deps')]), VP_FUZZ_MODULES=','.join(modules))
-        budget = (coll.deadline - time.time()) if coll.deadline else 3000
-        cmd = [sys.executable, '-W', 'ignore', '-m', 'vp.fuzz', coll.prop, new.name, str(n), str(seed % (2 ** 31 - 1) or 1), out, corpus, str(int(budget))]
-        try:
-            p = subprocess.run(cmd, env=env, cwd=VERIF, capture_output=True, text=True, timeout=budget + 120)
-        except subprocess.TimeoutExpired:
-            coll.inconclusive = True
-            return
-        if not os.path.exists(out):
-            raise HarnessError('atheris child produced no result (exit %s): %s' % (p.returncode, (p.stdout + p.stderr)[-1500:]))
-        r = json.load(open(out))
-        coll.evals, coll.checks = r['evals'], r['checks']
-        coll.nontrivial = set(r['nontrivial'])
-        coll.labels = Counter(r['labels'])
-        coll.labels['atheris-coverage-features:%s' % r.get('features', '?')] = 1
-        coll.rejected = Counter(r['rejected'])
-        coll.samples = [tuple(s) for s in r['samples']]
-        coll.max_metric = r['max_metric']
-        coll.inconclusive = r['inconclusive']
-        coll.harness_errors = r['harness_errors']
-        for b in r['buckets']:
-            coll.buckets[tuple(b['key'])] = dict(count=b['count'], cases=[tuple(c) for c in b['cases']])
+        done, rounds = 0, 0
+        while done < n:
+            budget = (coll.deadline - time.time()) if coll.deadline else 3000
+            if budget < 20:
+                coll.inconclusive = True
+                break
+            if os.path.exists(out):
+                os.unlink(out)
+            cmd = [sys.executable, '-W', 'ignore', '-m', 'vp.fuzz', coll.prop, new.name, str(n - done), str((seed + rounds) % (2 ** 31 - 1) or 1), out, corpus, str(int(budget))]
+            try:
+                p = subprocess.run(cmd, env=env, cwd=VERIF, capture_output=True, text=True, timeout=budget + 120)
+            except subprocess.TimeoutExpired:
+                coll.inconclusive = True
+                break
+            if not os.path.exists(out):
+                raise HarnessError('atheris child produced no result (exit %s): %s' % (p.returncode, (p.stdout + p.stderr)[-1500:]))
+            r = json.load(open(out))
+            rounds += 1
+            if r['evals'] == 0:
+                if rounds > 3:
+                    raise HarnessError('atheris child executes nothing: %s' % (p.stdout + p.stderr)[-800:])
+                continue
+            done += r['evals']
+            coll.evals += r['evals']
+            coll.checks += r['checks']
+            coll.nontrivial |= set(r['nontrivial'])
+            coll.labels.update(r['labels'])
+            coll.rejected.update(r['rejected'])
+            coll.samples = (coll.samples + [tuple(s_) for s_ in r['samples']])[:4]
+            coll.max_metric = max(coll.max_metric, r['max_metric'])
+            coll.inconclusive = coll.inconclusive or r['inconclusive']
+            coll.harness_errors += r['harness_errors']
+            for b in r['buckets']:
+                d = coll.buckets.setdefault(tuple(b['key']), dict(count=0, cases=[]))
+                d['count'] += b['count']
+                d['cases'] = sorted(d['cases'] + [tuple(c) for c in b['cases']], key=lambda c: (c[0], c[1]))[:3]
+            if r['inconclusive']:
+                break
+        coll.labels['atheris-child-processes'] += rounds
 
     new = Obligation(obl.name + '-atheris', strategy=obl.strategy, check=obl.check, quick=quick, thorough=thorough, expected_exc=obl.expected_exc,
                      runner=runner, max_shards=max_shards, min_per_shard=min_per_shard, budget_s=budget_s or {'quick': 200, 'thorough': 3000})
@@ -102,6 +120,13 @@ def child(argv):
             dump()
             os._exit(0)
         state['n'] += 1
+        if state['n'] % 10 == 0:
+            # numpy-heavy oracles leak ~25 MB per execution under atheris' bytecode instrumentation (C02 / C04 Riemann checks): the child
+            # leaves when it has grown to 3 GB and the parent starts the next one on the same corpus directory
+            import resource
+            if resource.getrusage(resource.RUSAGE_SELF).ru_maxrss / 1024 > 3000:
+                dump()
+                os._exit(0)
         if state['n'] >= runs:
             dump()
             os._exit(0)
